@@ -131,7 +131,21 @@ def build_tensor(d: Dict[str, Any]) -> torch.Tensor:
 
 PRIMS = [0, 1, -5, 2 ** 70, -(2 ** 64), True, False, "", "str", "é ü", "a\nb\"c\\", b"", b"by\x00\xff",
          1.5, -0.0, float("inf"), 5e-324]
-OBJECTS = [("set", [1, 2]), ("tuple", [1, "a"]), ("none", None), ("floatkeydict", None), ("complex", None), ("tuplekeydict", None)]
+OBJECTS = [("set", [1, 2]), ("tuple", [1, "a"]), ("none", None), ("floatkeydict", None), ("complex", None), ("tuplekeydict", None),
+           # subclasses of list / dict are NOT flattened (`type(obj) == list` tests): they travel as opaque objects and must come
+           # back as the same class
+           # (only classes the installed torch.load(weights_only=True default) accepts can be restored at all in this environment:
+           #  Counter is; defaultdict / user-defined subclasses are not - the same reason tests/test_batcher.py fails here)
+           ("counter", None)]
+
+
+class ListSub(list):
+    """a user-defined list subclass (e.g. a container with extra behaviour)"""
+
+
+class DictSub(dict):
+    """a user-defined dict subclass"""
+
 
 
 def rand_leaf_desc(rng, tensors: float = 0.6, max_elems: int = 24) -> Dict[str, Any]:
@@ -167,8 +181,11 @@ def build_leaf(d: Dict[str, Any]) -> Any:
     if t == "str":
         return "".join(chr(c) for c in d["v"])
     if t == "obj":
+        import collections
         return {"set": {1, 2}, "tuple": (1, "a"), "none": None, "floatkeydict": {1.5: 2}, "complex": complex(1, -2),
-                "tuplekeydict": {("a",): 1}}[d["kind"]]
+                "tuplekeydict": {("a",): 1}, "counter": collections.Counter("aab"),
+                "defaultdict": collections.defaultdict(int, {"a": 1, "b": 2}), "listsub": ListSub([1, "x"]),
+                "dictsub": DictSub(a=1, b=[2])}[d["kind"]]
     raise ValueError(t)
 
 
@@ -276,14 +293,14 @@ def deep_eq(a: Any, b: Any, path: str = "") -> Optional[str]:
 def deep_clone(a: Any) -> Any:
     if isinstance(a, torch.Tensor):
         return a.detach().clone()
-    if isinstance(a, OrderedDict):
+    if type(a) is OrderedDict:
         return OrderedDict((k, deep_clone(v)) for k, v in a.items())
-    if isinstance(a, dict):
+    if type(a) is dict:
         return {k: deep_clone(v) for k, v in a.items()}
-    if isinstance(a, list):
+    if type(a) is list:
         return [deep_clone(v) for v in a]
     import copy
-    return copy.deepcopy(a)
+    return copy.deepcopy(a)          # opaque objects, incl. subclasses of list / dict: keep the class
 
 
 def digest(a: Any) -> Any:
